@@ -122,6 +122,15 @@ fn check_constants(ctx: &mut Ctx) {
         }
     }
     ctx.count_n("constants:unchecked(not-in-reference)", unchecked);
+    // every name of the curated reference must have been enumerated from the crate (a constant that moved out of sight
+    // of the enumeration — re-exported, renamed, generated — would otherwise silently go unchecked)
+    let have: std::collections::HashSet<&str> = ABI_CONSTS.iter().map(|(n, _, _)| *n).collect();
+    let mut missing: Vec<&String> = r.keys().filter(|n| !have.contains(n.as_str())).collect();
+    missing.sort();
+    ctx.count_n("constants:reference-names-not-enumerated", missing.len() as u64);
+    if !missing.is_empty() {
+        ctx.inconclusive(format!("{} names of the reference table were not found among the constants enumerated from elf::abi (first: {:?}): their values are unchecked", missing.len(), missing.iter().take(5).collect::<Vec<_>>()));
+    }
     // names on which the two reference headers disagree: either header's value is accepted; names whose candidate
     // values are each other's permutation (a swapped pair) must follow one header together, so that they stay distinct
     if let Ok(txt) = std::fs::read_to_string(REF_DISAGREE_PATH) {
